@@ -210,15 +210,25 @@ deriving Repr
 def Chunk.exhausted (c : Chunk) : Bool := c.entries.isEmpty
 def Chunk.isExact (c : Chunk) : Bool := c.matching == c.code.length
 
+/-- what `compare_chunk_by_head_element` looks at: exact match?, length of the remaining code, credibility + weight
+of the head entry; `none` = nothing left (`!entries || cursor >= size`) -/
+def Chunk.headKey (c : Chunk) : Option (Bool × Nat × Dy) :=
+  match c.entries with
+  | [] => none
+  | e :: _ => some (c.isExact, c.remaining.length, Dy.add c.cred e.weight)
+
+/-- exact before predictive, then shorter remaining code, then larger credibility + weight -/
+def keyBetter (a b : Bool × Nat × Dy) : Bool :=
+  if a.1 != b.1 then a.1
+  else if a.2.1 != b.2.1 then decide (a.2.1 < b.2.1)
+  else Dy.lt b.2.2 a.2.2
+
 /-- `compare_chunk_by_head_element(a, b)`: is `a`'s head strictly better than `b`'s? -/
 def better (a b : Chunk) : Bool :=
-  match a.entries, b.entries with
-  | [], _ => false
-  | _ :: _, [] => true
-  | ea :: _, eb :: _ =>
-    if a.isExact != b.isExact then a.isExact
-    else if a.remaining.length != b.remaining.length then decide (a.remaining.length < b.remaining.length)
-    else Dy.lt (Dy.add b.cred eb.weight) (Dy.add a.cred ea.weight)
+  match a.headKey, b.headKey with
+  | none, _ => false
+  | some _, none => true
+  | some ka, some kb => keyBetter ka kb
 
 /-- the chunks `lookup_table` adds for one accessor found at `endPos`: (collector key, chunk) in order -/
 def chunksOf (g : Graph) (predict : Bool) (initCred : Dy) (endPos : Nat) (a : Accessor) : List (Nat × Chunk) :=
